@@ -175,7 +175,7 @@ func count(k string, n int) { extraCounters[k] += n }
 
 type openFinding struct {
 	ID         string   `json:"id"`
-	Property   string   `json:"property"`
+	Properties []string `json:"properties"`
 	What       string   `json:"what"`
 	Classifier string   `json:"classifier"`
 	Witness    string   `json:"witness"`
@@ -208,7 +208,11 @@ func loadKnown() {
 func classify(prop string, c interface{}, fail string) string {
 	loadKnown()
 	for _, f := range known.Open {
-		if f.Property != prop {
+		applies := false
+		for _, p := range f.Properties {
+			applies = applies || p == prop
+		}
+		if !applies {
 			continue
 		}
 		if cl := Classifiers[f.Classifier]; cl != nil && cl(prop, c, fail) {
